@@ -245,6 +245,11 @@ func cmdCheck(args []string) int {
 				return
 			}
 			script := j.fr.vc.obligationScript(ob, false)
+			if ob.Cover {
+				// vacuity guard: only an "unsat" answer matters; do not wait for a model
+				ob.Res = Solve(script, 3, []int{0})
+				return
+			}
 			ob.Res = Solve(script, timeout, nil)
 			if !ob.Cover && (ob.Res.Status == "timeout" || ob.Res.Status == "unknown") {
 				// one retry with a longer budget before calling it a failure
